@@ -40,7 +40,7 @@ def _objects():
     out = []
     for name in models.CLASSIFIERS:
         out.append(("clf", name))
-    out += [("clf", "pwc_mean"), ("clf", "pwc_shared_dict")]
+    out += [("clf", "pwc_mean"), ("clf", "pwc_shared_dict"), ("clf", "pwc_cost_unsorted"), ("clf", "sk_nb_cost_unsorted")]
     for name in models.REGRESSORS:
         out.append(("reg", name))
     out += [("reg", "nic_dict"), ("reg", "sk_sgd_pf")]
@@ -90,6 +90,11 @@ def _make_est(fam, name, shared):
             return ParzenWindowClassifier(metric_dict={"gamma": "mean"}, classes=[0, 1, 2], random_state=0), False
         if name == "pwc_shared_dict":
             return ParzenWindowClassifier(metric_dict=shared, classes=[0, 1, 2], random_state=0), False
+        if name.endswith("_cost_unsorted"):
+            # classes given in another order than sorted and an asymmetric float64 cost matrix given as an array
+            cm = np.array([[0.0, 1.0, 3.0], [2.0, 0.0, 1.0], [1.0, 4.0, 0.0]], order="F" if name.startswith("sk") else "C")
+            f = models.CLASSIFIERS["pwc" if name.startswith("pwc") else "sk_nb"][0]
+            return f([2, 0, 1], np.nan, cm, 0), False
         f, multi, _ = models.CLASSIFIERS[name]
         return f([0, 1, 2], np.nan, None, 0), multi
     if name == "nic_dict":
